@@ -121,8 +121,8 @@ class Section(Entity):
             objcopy = copy_from._parent._h5group.copy(source=src, dest=self._h5group, name=name,
                                                       cls=clsname, keep_id=keep_copy_id)
 
-            id_ = objcopy.attrs["entity_id"]
-            return self.props[id_]
+            # address the copy by name: with keep_copy_id the id is not unique
+            return self.props[objcopy.attrs["name"]]
 
         vals = values_or_dtype
 
@@ -206,9 +206,9 @@ class Section(Entity):
 
         if not children:
             for prop in obj.props:
-                self.sections[obj.name].create_property(copy_from=prop, keep_copy_id=keep_id)
+                self.sections[name].create_property(copy_from=prop, keep_copy_id=keep_id)
 
-        return self.sections[sec.attrs["entity_id"]]
+        return self.sections[name]
 
     @property
     def reference(self):
